@@ -212,7 +212,7 @@ func checkC04(c *core.Ctx) {
 		bin := filepath.Join(sc.Bin, "bsm_regen")
 		cmd := exec.Command("go", "build", "-o", bin, ".")
 		cmd.Dir = tdir
-		cmd.Env = append(os.Environ(), "GOFLAGS=-mod=mod", "GOPROXY=off", "GOSUMDB=off", "GOTOOLCHAIN=local")
+		cmd.Env = impl.GoEnv()
 		if out, err := cmd.CombinedOutput(); err != nil {
 			c.Violation("C04:tool-does-not-build", "build_sample_md does not build from its regenerated source: "+firstLines(string(out), 4), map[string]any{"observed": string(out)})
 		} else {
@@ -236,7 +236,7 @@ func checkC04(c *core.Ctx) {
 	{
 		cmd := exec.Command("go", "build", "-o", fc2, ".")
 		cmd.Dir = filepath.Join(work1, "fc")
-		cmd.Env = append(os.Environ(), "GOFLAGS=-mod=mod", "GOPROXY=off", "GOSUMDB=off", "GOTOOLCHAIN=local")
+		cmd.Env = impl.GoEnv()
 		if out, err := cmd.CombinedOutput(); err != nil {
 			c.Violation("C04:gen2-compiler-does-not-build", "the compiler does not build from its own regenerated output: "+firstLines(string(out), 4), map[string]any{"observed": string(out)})
 			return
